@@ -109,6 +109,7 @@ func c18PresenceScans(c *core.Ctx) {
 					})
 				}
 				missing := ""
+				dupIndex := ""
 				for _, l := range loops {
 					init, ok := l.Init.(*ast.AssignStmt)
 					if !ok || init.Tok != token.DEFINE {
@@ -124,10 +125,167 @@ func c18PresenceScans(c *core.Ctx) {
 						}
 					}
 				}
+				// an accessor with several index arguments must be addressed by distinct loop variables (GetHessian(i, i)
+				// inspects the diagonal only)
+				if missing == "" {
+					loopVars := map[types.Object]bool{}
+					for _, l := range loops {
+						if init, ok := l.Init.(*ast.AssignStmt); ok && init.Tok == token.DEFINE {
+							for _, lh := range init.Lhs {
+								if li, ok := lh.(*ast.Ident); ok {
+									loopVars[info.Defs[li]] = true
+								}
+							}
+						}
+					}
+					ast.Inspect(cond.Cond, func(m ast.Node) bool {
+						ce, ok := m.(*ast.CallExpr)
+						if !ok || len(ce.Args) < 2 {
+							return true
+						}
+						seen := map[types.Object]bool{}
+						for _, a := range ce.Args {
+							ai, ok := ast.Unparen(a).(*ast.Ident)
+							if !ok || !loopVars[info.Uses[ai]] {
+								return true
+							}
+							if seen[info.Uses[ai]] {
+								dupIndex = types.ExprString(ce)
+							}
+							seen[info.Uses[ai]] = true
+						}
+						return true
+					})
+				}
+				if dupIndex != "" {
+					c.Fail("C18.R16", cons, "scan setting "+id.Name, as.Pos(), "the scan that sets "+id.Name+" reads "+dupIndex+": the same loop variable in two index positions inspects only the diagonal of the payload before the field is omitted")
+					return true
+				}
 				c.Check(missing == "", "C18.R16", cons, "scan setting "+id.Name, as.Pos(),
 					"the scan that sets "+id.Name+" loops over "+missing+" but its condition "+types.ExprString(cond.Cond)+" never reads "+missing+": only a part of the payload is inspected before the field is omitted")
 				return true
 			})
 		})
+	}
+}
+
+// C18.R17 — the line reader of the table importers. bufioReadLine strips the delimiter with l[0:len(l)-1]; that is
+// only right when ReadString found the delimiter, i.e. returned a nil error. The trim must therefore be dominated by
+// the nil edge of a test of the error variable as ReadString assigned it (no reassignment of it may reach the trim);
+// an unterminated last line must be returned untrimmed. Otherwise the last payload character of a file without a final
+// newline is cut off ("45" is read as 4).
+func c18LineReader(c *core.Ctx) {
+	c.Rule("C18.R17", "the line reader trims the last byte of a line only on paths where ReadString returned the delimiter (nil error, error variable not reassigned)", 1)
+	pkg := c.Root
+	info := pkg.TypesInfo
+	n := 0
+	core.EachFunc(pkg, func(_ *ast.File, fd *ast.FuncDecl) {
+		if fd.Body == nil {
+			return
+		}
+		// l, err := reader.ReadString('\n')
+		var lObj, errObj types.Object
+		var read *ast.AssignStmt
+		ast.Inspect(fd.Body, func(m ast.Node) bool {
+			as, ok := m.(*ast.AssignStmt)
+			if !ok || len(as.Lhs) != 2 || len(as.Rhs) != 1 {
+				return true
+			}
+			ce, ok := ast.Unparen(as.Rhs[0]).(*ast.CallExpr)
+			if !ok {
+				return true
+			}
+			if fn := core.Callee(info, ce); fn == nil || fn.Name() != "ReadString" || fn.Pkg() == nil || fn.Pkg().Path() != "bufio" {
+				return true
+			}
+			obj := func(e ast.Expr) types.Object {
+				id, ok := e.(*ast.Ident)
+				if !ok {
+					return nil
+				}
+				if o := info.Defs[id]; o != nil {
+					return o
+				}
+				return info.Uses[id]
+			}
+			lObj, errObj, read = obj(as.Lhs[0]), obj(as.Lhs[1]), as
+			return true
+		})
+		if read == nil || lObj == nil || errObj == nil {
+			return
+		}
+		cons := c.FuncName(pkg, fd)
+		cf := core.NewFuncCFG(fd.Body, info)
+		// trims: l[a : len(l)-k]
+		ast.Inspect(fd.Body, func(m ast.Node) bool {
+			se, ok := m.(*ast.SliceExpr)
+			if !ok || se.High == nil {
+				return true
+			}
+			if id, ok := ast.Unparen(se.X).(*ast.Ident); !ok || info.Uses[id] != lObj {
+				return true
+			}
+			if be, ok := ast.Unparen(se.High).(*ast.BinaryExpr); !ok || be.Op != token.SUB {
+				return true
+			}
+			n++
+			// dominated by the nil edge of a test of err
+			dom := false
+			ast.Inspect(fd.Body, func(k ast.Node) bool {
+				is, ok := k.(*ast.IfStmt)
+				if !ok {
+					return true
+				}
+				be, ok := ast.Unparen(is.Cond).(*ast.BinaryExpr)
+				if !ok || (be.Op != token.NEQ && be.Op != token.EQL) {
+					return true
+				}
+				isErr := func(e ast.Expr) bool {
+					id, ok := ast.Unparen(e).(*ast.Ident)
+					return ok && info.Uses[id] == errObj
+				}
+				isNil := func(e ast.Expr) bool {
+					id, ok := ast.Unparen(e).(*ast.Ident)
+					return ok && id.Name == "nil"
+				}
+				if !(isErr(be.X) && isNil(be.Y) || isErr(be.Y) && isNil(be.X)) {
+					return true
+				}
+				t, f := cf.CondEdge(is.Cond)
+				edge := f
+				if be.Op == token.EQL {
+					edge = t
+				}
+				if tb, _ := cf.BlockOf(se.Pos()); edge != nil && tb != nil && cf.Dominates(edge, tb) {
+					dom = true
+				}
+				return true
+			})
+			// no other assignment to err before the trim
+			reassigned := token.NoPos
+			ast.Inspect(fd.Body, func(k ast.Node) bool {
+				as, ok := k.(*ast.AssignStmt)
+				if !ok || as == read {
+					return true
+				}
+				for _, l := range as.Lhs {
+					if id, ok := ast.Unparen(l).(*ast.Ident); ok && (info.Uses[id] == errObj || info.Defs[id] == errObj) && as.Pos() < se.Pos() {
+						reassigned = as.Pos()
+					}
+				}
+				return true
+			})
+			msg := ""
+			if !dom {
+				msg = "the trim " + types.ExprString(se) + " is not dominated by the nil edge of a test of the error returned by ReadString: an unterminated last line loses its last character"
+			} else if reassigned != token.NoPos {
+				msg = "the error returned by ReadString is overwritten before the trim " + types.ExprString(se) + ": the nil test no longer says that the delimiter was read"
+			}
+			c.Check(msg == "", "C18.R17", cons, "trim "+types.ExprString(se), se.Pos(), msg)
+			return true
+		})
+	})
+	if n == 0 {
+		c.Unknown("C18.R17", "bufioReadLine", "trim found", token.NoPos, "no line reader that trims the result of ReadString was found")
 	}
 }
